@@ -1,5 +1,6 @@
 pub mod corrupt;
 pub mod crash;
+pub mod fault;
 pub mod model;
 pub mod table;
 
@@ -14,6 +15,7 @@ pub fn dispatch(cmd: &str, args: &Args) -> i32 {
         "corrupt-worker" => corrupt::worker(args),
         "crashrun" => crash::crashrun(args),
         "crashcheck" => crash::crashcheck(args),
+        "faultrun" => fault::faultrun(args),
         _ => {
             eprintln!("unknown command {cmd:?}; commands: model, table, replay");
             2
